@@ -223,6 +223,27 @@ theorem gatherWindow_spec (env : GEnv) (mem : Nat → UInt8) (ip lo : Nat) (b : 
       rw [hl]
       exact ⟨hw, this⟩
 
+/-- … the same for a reader that is exact inside `[lo, hi)` when the window lies there -/
+theorem gatherWindow_spec_in (env : GEnv) (mem : Nat → UInt8) (ip wlo lo hi : Nat) (b : Bytes)
+    (hr : ReadsExactlyIn env mem lo hi)
+    (hin : ∀ a n, ipWindow env.ms ip = some (a, n) → lo ≤ a ∧ a + n ≤ hi)
+    (h : gatherWindow env ip = .ok (some (wlo, b))) :
+    ipWindow env.ms ip = some (wlo, b.length) ∧ b = (List.range b.length).map (fun k => mem (wlo + k)) := by
+  unfold gatherWindow at h
+  split at h
+  · cases h
+  · rename_i lo' len hw
+    split at h
+    · cases h
+    · rename_i b' hrd
+      injection h with h; injection h with h; injection h with h1 h2
+      subst h1; subst h2
+      obtain ⟨hb1, hb2⟩ := hin _ _ hw
+      have := hr _ _ _ hb1 hb2 hrd
+      have hl : b'.length = len := by rw [this]; simp
+      rw [hl]
+      exact ⟨hw, this⟩
+
 /-- **End to end (the thread of the crash context).** Whatever its position in the list and whatever the size limit,
     the thread the crash context blames is gathered from the crash context: its stack pointer, instruction pointer and
     registers are the supplied ones, its stack is gathered as the crash-context thread (never shortened), and the
